@@ -13,8 +13,8 @@ pub fn rc() -> BoxedStrategy<u32> {
         4 => proptest::sample::select(RFC_CODES),
         3 => proptest::sample::select(&[0u32, 5, 6, 10][..]),
         1 => 0u32..200,
-        1 => proptest::sample::select(&[127u32, 128, 255, 256, 32767, 32768, 65535, 65536, 8388607, 8388608, 2147483646, 2147483647][..]),
-        1 => 0u32..=2147483647,
+        1 => proptest::sample::select(&[127u32, 128, 255, 256, 32767, 32768, 65535, 65536, 8388607, 8388608, 2147483646, 2147483647, 2147483648, 4294967294, 4294967295][..]),
+        1 => 0u32..=u32::MAX,
     ]
     .boxed()
 }
